@@ -525,7 +525,9 @@ class Gen:
             if r.random() < 0.5:
                 return [asg(V(pn), ('addr', v[1])), asg(tgt, v), asg(('deref', pn), N(r.randrange(1, 9))), asg(tgt, v)]
             return [asg(V(pn), ('addr', v[1])), asg(tgt, ('deref', pn)), asg(v, r.choice([N(r.randrange(1, 9)), V('X')])), asg(tgt, ('deref', pn))]
-        k = r.randrange(23)
+        k = r.randrange(24)
+        if k == 23:
+            k = 21
         if k == 22 and self.arrays:
             # an update of one array element, then a zero test of ANOTHER element of the same array
             # (same symbol, other offset): the flags of the update do not describe it
@@ -545,9 +547,16 @@ class Gen:
             sv = r.choice(self.shorts)
             others = [x for x in self.shorts if x != sv]
             inc = ('inc', r.choice(['++x', '--x', '++x', 'x++', 'x--']), V(sv))
-            e = r.choice([('bin', r.choice(['>>', '<<']), inc, N(r.choice([1, 7, 8, 8, 9, 15]))),
-                          ('bin', r.choice(['+', '-', '&', '|']), inc, N(r.choice([1, 255, 256, 0x1234]))), inc])
-            tgt = V(r.choice(others)) if others and r.random() < 0.5 else u()
+            if others and r.random() < 0.6:
+                # 16-bit target: the compiler evaluates the operand once per byte of the result (only a
+                # shift by 8 is accepted there)
+                tgt = V(r.choice(others))
+                e = r.choice([('bin', r.choice(['>>', '<<']), inc, N(8)), ('bin', r.choice(['>>', '<<']), inc, N(8)),
+                              ('bin', r.choice(['+', '-', '&', '|']), inc, N(r.choice([1, 255, 256, 0x1234]))), inc])
+            else:
+                tgt = u()
+                e = r.choice([('bin', r.choice(['>>', '<<']), inc, N(r.choice([1, 7, 8, 8, 9, 15]))),
+                              ('bin', r.choice(['+', '-', '&', '|']), inc, N(r.choice([1, 255, 256, 0x1234]))), inc])
             return [asg(tgt, e)]
         if k == 21:
             k = r.randrange(13)
